@@ -71,6 +71,7 @@ def fixture():
     shutil.rmtree(tmp)
     _FIX['d'] = base
     _FIX['genes'] = genes
+    _FIX['query_genes'] = [str(x) for x in g]
     return base
 
 
@@ -147,6 +148,7 @@ class History(RuleBasedStateMachine):
         self.n_invalid = 0
         self.n_obsm = 0
         self.n_plant = 0
+        self.n_direct = 0
         self.tolerated = set()    # scratch leftovers of failing non-mapping stages + planted files
 
     def teardown(self):
@@ -221,6 +223,17 @@ class History(RuleBasedStateMachine):
         if self.dirty:
             self.nontrivial = True
 
+    # the successful run is the step every other one is judged by: registered three times so that the rule
+    # selection (which enables a random subset of rules per history) reaches it in most histories
+    @rule(stage=st.sampled_from(STAGES), n_processors=st.integers(1, 3), small_budget=st.booleans(),
+          gene_subset=st.one_of(st.just([]), st.lists(st.integers(0, 19), min_size=1, max_size=5, unique=True)))
+    def run_ok_again(self, stage, n_processors, small_budget, gene_subset=()):
+        self.run_ok(stage=stage, n_processors=n_processors, small_budget=small_budget, gene_subset=gene_subset)
+
+    @rule(stage=st.sampled_from(STAGES), n_processors=st.integers(1, 3))
+    def run_ok_once_more(self, stage, n_processors):
+        self.run_ok(stage=stage, n_processors=n_processors, small_budget=False, gene_subset=[])
+
     @rule(stage=st.sampled_from(STAGES), worker=st.integers(0, 1), mode=st.sampled_from(['kill', 'exit', 'raise']),
           point=st.sampled_from(['before', 'mid', 'after']), at=st.integers(5, 400))
     def run_injected_failure(self, stage, worker, mode, point, at):
@@ -289,6 +302,70 @@ class History(RuleBasedStateMachine):
         self._check_inputs(what)
         self._check_outputs(ob, tag, what)
         self._check_scratch(sb, what, strict=True)
+
+    @precondition(lambda self: self.n_direct < 2)
+    @rule(chunk_size=st.sampled_from([1, 2, 3, 5]), n_processors=st.integers(1, 3),
+          foreign=st.lists(st.sampled_from(['0_2', '0_8', '2_4', '4_6', '6_8', '7_8', '5_8', '90_93']), max_size=3, unique=True))
+    def run_type_assignment_with_shared_results_dir(self, chunk_size, n_processors, foreign):
+        """the type-assignment stage called directly with a results directory that other invocations used before:
+        chunk files of other runs (other chunking, other assignments for the same cell ids) lie in it"""
+        from pbt import mapping
+        self.n_direct += 1
+        self.step += 1
+        what = ['run_type_assignment_with_shared_results_dir', chunk_size, n_processors, foreign]
+        self.trace.append(what)
+        cfg = dict(stage_args('mapping', {'n_processors': n_processors, 'chunk_size': chunk_size}, self.ind)['cfg'], flatten=False, drop_level=None)
+        spec = {'cfg': cfg, 'query': {'genes': _FIX['query_genes']}}
+        paths = {'stats': self.ind / 'stats.h5', 'query': self.ind / 'query.h5ad', 'markers': self.ind / 'markers.json'}
+        key = f'direct_pristine_{chunk_size}_{n_processors}'     # the vote is reproducible for a fixed configuration (C04)
+        if key not in _BASE:
+            d0 = pathlib.Path(tempfile.mkdtemp(prefix='c19direct_', dir=scratch_root()))
+            try:
+                res0, err0 = mapping.run_direct(d0, paths, spec, use_buffer_dir=True)
+            finally:
+                shutil.rmtree(d0, ignore_errors=True)
+            if err0 is not None:
+                raise RuntimeError(f'harness: pristine direct run failed: {err0!r}')
+            _BASE[key] = json.loads(json.dumps(res0, default=lambda o: o.item() if hasattr(o, 'item') else str(o)))
+        want = {r['cell_id']: r for r in _BASE[key]}
+        shared = self.scratch / 'assignment_results'
+        shared.mkdir(exist_ok=True)
+        ids = sorted(want)
+        for name in foreign:
+            r0, r1 = [int(v) for v in name.split('_')]
+            recs = []
+            for i in range(r0, min(r1, len(ids))):
+                other = dict(want[ids[(i + 3) % len(ids)]])     # a plausible record - of another cell
+                other['cell_id'] = f'q{i}'
+                recs.append(other)
+            (shared / f'{name}_assignment.json').write_text(json.dumps(recs))
+        before = listing(shared)
+        sb = listing(self.scratch)
+        work = self.out / f'd{self.step}'
+        work.mkdir()
+        res, err = mapping.run_direct(work, paths, spec, buffer_dir=shared)
+        shutil.rmtree(work, ignore_errors=True)
+        if err is not None:
+            self._fail('successful_run_raised', {'step': what, 'error': f'{type(err).__name__}: {str(err)[:300]}'})
+        got = json.loads(json.dumps(res, default=lambda o: o.item() if hasattr(o, 'item') else str(o)))
+        if sorted(r['cell_id'] for r in got) != ids:
+            self._fail('result_depends_on_files_left_in_results_dir', {'step': what, 'cells': [r['cell_id'] for r in got]})
+        for r in got:
+            w = want[r['cell_id']]
+            for lv in TREE['hierarchy']:
+                if r[lv]['assignment'] != w[lv]['assignment'] or abs(r[lv]['bootstrapping_probability'] - w[lv]['bootstrapping_probability']) > 1e-12:
+                    self._fail('result_depends_on_files_left_in_results_dir', {'step': what, 'cell': r['cell_id'], 'level': lv,
+                                                                                 'got': r[lv]['assignment'], 'want': w[lv]['assignment']})
+        left = listing(shared) - before
+        if left:
+            self._fail('results_dir_not_clean_after_return', {'step': what, 'left_behind': sorted(left)[:6]})
+        self._check_inputs(what)
+        if listing(self.scratch) - sb - {'assignment_results'}:
+            self._fail('scratch_not_empty_after_return', {'after': what, 'left_behind': sorted(listing(self.scratch) - sb)[:6]})
+        for f in shared.iterdir():     # the foreign files are this rule's own; remove them so that later steps start clean
+            if f.is_file():
+                f.unlink()
+        self.dirty = True
 
     @precondition(lambda self: self.n_obsm < 1)
     @rule(n_processors=st.integers(1, 2))
@@ -480,6 +557,8 @@ def check(spec):
                     m.plant_stale(where=step[1], idx=[STALE_PATTERNS.index(x) for x in step[2]], content=step[3])
                 elif name == 'run_mapping_storing_results_in_query':
                     m.run_mapping_storing_results_in_query(n_processors=step[1])
+                elif name == 'run_type_assignment_with_shared_results_dir':
+                    m.run_type_assignment_with_shared_results_dir(chunk_size=step[1], n_processors=step[2], foreign=step[3])
                 elif name == 'concurrent_pair':
                     m.concurrent_pair(stage_a=step[1], pa=step[2], stage_b=step[3], pb=step[4],
                                       ca=step[5] if len(step) > 5 else 3, cb=step[6] if len(step) > 6 else 3)
